@@ -20,7 +20,9 @@ from . import units as U
 # genuine findings of the current tree (NOTES.md): reported, but they do not make the self-test fail
 KNOWN_FINDINGS = {'SELF.scan.alloc_checked.mod25519.c': 'F-ALLOC-1: src/mod25519.c:223 calloc result written without a NULL test'}
 
-MODULES = ['contracts.c.pkcs1_decode', 'contracts.c.raw_ctr', 'contracts.c.chacha20', 'contracts.c.raw_ocb']
+MODULES = ['contracts.c.pkcs1_decode', 'contracts.c.raw_ctr', 'contracts.c.chacha20', 'contracts.c.raw_ocb', 'contracts.c.raw_cbc',
+           'contracts.c.pbkdf2_sha224', 'contracts.c.pbkdf2_sha256', 'contracts.c.pbkdf2_sha384', 'contracts.c.pbkdf2_sha512',
+           'contracts.c.pbkdf2_sha1', 'contracts.c.pbkdf2_md5']
 
 # (name, file, old text, new text, contract module, functions, configs or None, kind of the obligation expected to fail or None)
 MUTANTS = [
@@ -75,6 +77,20 @@ MUTANTS = [
     ('double_L: reduction constant 0x87 -> 0x86', 'raw_ocb.c',
      '(carry & 0x87)', '(carry & 0x86)',
      'contracts.c.raw_ocb', ['double_L'], None, None),
+    ('CBC_decrypt: next IV copied from the caller buffer (wrong in place; seeded C09)', 'raw_cbc.c',
+     [('            iv[MAX_BLOCK_LEN];\n    size_t block_len;\n\n    if ((NULL == cbcState) || (NULL == in) || (NULL == out))\n        return ERR_NULL;\n\n    block_len = cbcState->cipher->block_len;\n    if (block_len > MAX_BLOCK_LEN)\n        return ERR_BLOCK_SIZE;\n\n    memcpy(iv, cbcState->iv, block_len);\n    while (data_len >= block_len) {\n        unsigned i;\n        int result;\n\n        result = cbcState->cipher->decrypt(',
+       '            iv[MAX_BLOCK_LEN];\n    const uint8_t *last_ct = NULL;\n    size_t block_len;\n\n    if ((NULL == cbcState) || (NULL == in) || (NULL == out))\n        return ERR_NULL;\n\n    block_len = cbcState->cipher->block_len;\n    if (block_len > MAX_BLOCK_LEN)\n        return ERR_BLOCK_SIZE;\n\n    memcpy(iv, cbcState->iv, block_len);\n    while (data_len >= block_len) {\n        unsigned i;\n        int result;\n\n        result = cbcState->cipher->decrypt('),
+      ('        memcpy(out, pt, block_len);\n', '        memcpy(out, pt, block_len);\n        last_ct = in;\n'),
+      ('        out += block_len;\n    }\n    memcpy(cbcState->iv, iv, block_len);\n\n    if (data_len > 0)\n        return ERR_NOT_ENOUGH_DATA;\n\n    return 0;\n}\n\n\nEXPORT_SYM int CBC_stop',
+       '        out += block_len;\n    }\n    if (NULL != last_ct)\n        memcpy(cbcState->iv, last_ct, block_len);\n\n    if (data_len > 0)\n        return ERR_NOT_ENOUGH_DATA;\n\n    return 0;\n}\n\n\nEXPORT_SYM int CBC_stop')],
+     None, 'contracts.c.raw_cbc', ['CBC_decrypt'], ['bl16.inplace'], None),
+    ('CBC_encrypt: chains the plaintext block instead of the ciphertext block', 'raw_cbc.c',
+     '        memcpy(iv, out, block_len);', '        memcpy(iv, in, block_len);',
+     'contracts.c.raw_cbc', ['CBC_encrypt'], ['bl16.disjoint'], None),
+    ('pbkdf2 assist: 64-bit word xor drops the digest_size % 8 tail (seeded C12, SHA-224)', 'hash_SHA2_template.c',
+     '        for (j=0; j<digest_size; j++) {\n            result[j] ^= last_hmac[j];\n        }',
+     '        for (j=0; j<digest_size/sizeof(uint64_t); j++) {\n            uint64_t acc, u;\n            memcpy(&acc, result + j*sizeof(uint64_t), sizeof acc);\n            memcpy(&u, last_hmac + j*sizeof(uint64_t), sizeof u);\n            acc ^= u;\n            memcpy(result + j*sizeof(uint64_t), &acc, sizeof acc);\n        }',
+     'contracts.c.pbkdf2_sha224', ['SHA224_pbkdf2_hmac_assist'], ['ds28'], None),
     ('MD4: writable static buffer re-introduced (finding D12)', 'MD4.c',
      '    static const uint8_t padding[64] = {', '    static uint8_t s_len[8];\n    static const uint8_t padding[64] = {',
      'scan:static_const', None, None, 'scan'),
@@ -99,6 +115,10 @@ BENIGN = [
      [('        *pCounter = (uint8_t)(*pCounter + amount);\n        amount = *pCounter < amount;\n    }\n}\n\n/*\n * Create',
        '        unsigned sum = *pCounter + amount;\n        *pCounter = (uint8_t)sum;\n        amount = *pCounter < amount;\n    }\n}\n\n/*\n * Create')],
      'contracts.c.raw_ctr', ['increment_be'], ['len1', 'len4', 'len16']),
+    ('CBC_decrypt: xor loop and the two copies reordered', 'raw_cbc.c',
+     [('        memcpy(iv, in, block_len);\n        memcpy(out, pt, block_len);\n\n        data_len -= block_len;\n        in += block_len;\n        out += block_len;',
+       '        memcpy(iv, in, block_len);\n        memcpy(out, pt, block_len);\n\n        out += block_len;\n        in += block_len;\n        data_len -= block_len;')],
+     'contracts.c.raw_cbc', ['CBC_decrypt'], ['bl16.disjoint']),
     ('chacha20_seek: checks reordered (offset before nonce size)', 'chacha20.c',
      [('    if ((state->nonceSize != 8) && (state->nonceSize != 12))\n        return ERR_NONCE_SIZE;\n\n    if (offset >= sizeof state->keyStream)\n        return ERR_MAX_OFFSET;\n\n    if (state->nonceSize == 8) {',
        '    if ((state->nonceSize != 8) && (state->nonceSize != 12))\n        return ERR_NONCE_SIZE;\n\n    if (!(offset < sizeof state->keyStream))\n        return ERR_MAX_OFFSET;\n\n    if (state->nonceSize == 8) {')],
@@ -208,7 +228,9 @@ def baseline(jobs, only, quick_only=False):
 
 
 # ------------------------------------------------------------------------------------------------ (ii) mutants / (iii) benign
-def make_copy(tmp, fname, edits):
+def make_copy(tmp, fname, edits, mod=None):
+    """copy of the (edited) file; if the file is not the translation unit of the contract module (an included template), the
+    TU is copied next to it so that its `#include "..."` picks up the edited copy"""
     src = os.path.join(src_dir(), fname)
     with open(src) as f:
         text = f.read()
@@ -222,6 +244,11 @@ def make_copy(tmp, fname, edits):
     dst = os.path.join(d, fname)
     with open(dst, 'w') as f:
         f.write(text)
+    if mod is not None and not mod.startswith('scan:'):
+        tu_name = os.path.basename(U.load_registry(mod).file)
+        if tu_name != fname:
+            shutil.copy(os.path.join(src_dir(), tu_name), os.path.join(d, tu_name))
+            return os.path.join(d, tu_name)
     return dst
 
 
@@ -266,7 +293,8 @@ def mutants(jobs, only, tmp):
             continue
         if not have(mod):
             continue
-        path = make_copy(tmp, fname, [(old, new)])
+        edits = old if isinstance(old, list) else [(old, new)]
+        path = make_copy(tmp, fname, edits, mod)
         for fn in fns:
             t = ('fn', mod, fn, tuple(cfgs) if cfgs else None, path)
             tasks.append(t)
@@ -316,7 +344,7 @@ def benign(jobs, only, tmp):
             continue
         if not have(mod):
             continue
-        path = make_copy(tmp, fname, edits)
+        path = make_copy(tmp, fname, edits, mod)
         for fn in fns:
             t = ('fn', mod, fn, tuple(cfgs) if cfgs else None, path)
             tasks.append(t)
